@@ -2,6 +2,7 @@
 From Coq Require Import String Permutation.
 From Verif Require Import Base.Str Base.Lines Base.Outcome Regex.Re Regex.Equiv Model.Patterns Model.ParseLine Model.Passes Model.CmdLine Model.Parser Model.Assembler Model.Generate.
 From Verif Require Import Proofs.EquivSound Proofs.PassesProofs Proofs.CmdLineProofs Proofs.ParserProofs Proofs.AssemblerProofs.
+From Verif Require Tie.Pin_IncludeRegex_src Tie.Pin_IncludeExceptRegex_src Tie.Pin_DefinitionRegex_src Tie.Pin_CommentRegex_src Tie.Pin_FlagsRegex_src Tie.Pin_PrefixRegex_src Tie.Pin_SuffixRegex_src.
 From Verif Require Tie.Pin_lits_regex_parser_parser_Parser_Parse Tie.Pin_lits_regex_parser_parser_Parser_parseLine Tie.Pin_lits_regex_parser_include_except_builder_replaceSuffixes Tie.Pin_lits_regex_parser_include_except_builder_stringFromInclusionLines Tie.Pin_lits_regex_parser_parser_expandDefinitions Tie.Pin_lits_regex_operators_assembler_Operator_complete Tie.Pin_lits_regex_operators_assembler_Operator_Run.
 Open Scope N_scope.
 
